@@ -126,6 +126,29 @@ pub fn run(ctx: &Ctx) -> Result<(), String> {
             }
         }
     }
+    // idle reaction time: with the built-in poll timeout (no override) every idle call of the event
+    // loop must return promptly, however long the worker has been idle — it is the only thing that
+    // brings an idle worker back to the shutdown-flag check ("within a few seconds")
+    {
+        roughenough::verif::set_poll_override_ms(-1);
+        let r = crate::util::on_named_thread("worker-0", || -> Result<Vec<f64>, String> {
+            let mut srv = crate::inproc::Srv::new(&crate::inproc::SrvCfg::default())?;
+            let mut durs = vec![];
+            for _ in 0..ctx.tier.pick(10, 14) {
+                let t = Instant::now();
+                srv.step()?;
+                durs.push(t.elapsed().as_secs_f64());
+            }
+            Ok(durs)
+        });
+        roughenough::verif::set_poll_override_ms(0);
+        let durs = r?;
+        let worst = durs.iter().cloned().fold(0.0f64, f64::max);
+        sampled.push(json!({"idle_steps": durs.len(), "idle_step_seconds": durs.iter().map(|d| (d * 1000.0).round() / 1000.0).collect::<Vec<_>>()}));
+        if worst > 2.0 {
+            ctx.violation("idle-step-too-long", "poll-timeout", "idle", json!({"kind":"idle-steps","seconds":durs,"message":format!("an idle call of process_events took {:.1} s: an idle worker would look at the shutdown flag only that often", worst)}));
+        }
+    }
     // short status interval with per-client statistics under closed-loop load (sampled): the stats
     // hand-off fires every 100 ms while the reporter drains once a second
     {
@@ -189,6 +212,31 @@ pub fn run(ctx: &Ctx) -> Result<(), String> {
             }
             sp.kill();
             let _ = std::fs::remove_dir_all(&dir);
+        }
+    }
+    // long idle before the signal (thorough; sampled)
+    if ctx.tier == Tier::Thorough {
+        for (nw, sig) in [(1usize, libc::SIGTERM), (4, libc::SIGINT)] {
+            let (mut sp, _port) = crate::proc::start_serving(
+                &|port| {
+                    let mut w = Written::base(port);
+                    w.set("num_workers", &nw.to_string());
+                    w
+                },
+                Source::File,
+                nw,
+                Duration::from_secs(20),
+            )?;
+            std::thread::sleep(Duration::from_secs(8));
+            let t0 = Instant::now();
+            sp.signal(sig);
+            let ex = sp.wait_exit(Duration::from_secs(30));
+            let secs = t0.elapsed().as_secs_f64();
+            sampled.push(json!({"num_workers":nw,"idle_before_signal_s":8,"signal":if sig == libc::SIGINT {"INT"} else {"TERM"},"exit":format!("{:?}", ex.map(|e| (e.0, e.1))),"seconds":(secs * 1000.0).round() / 1000.0}));
+            if !(matches!(ex, Some((Some(0), _, _))) && secs <= 5.0) {
+                ctx.violation("wall-clock-shutdown", if ex.is_none() { "no-exit-30s" } else { "slow-or-unclean" }, "long-idle", json!({"kind":"wallclock-idle","num_workers":nw,"signal":sig,"exit":format!("{:?}", ex),"seconds":secs}));
+            }
+            sp.kill();
         }
     }
     // open-loop flood with the project's own stress client (sampled): the queue is kept non-empty
